@@ -66,7 +66,7 @@ fn main() {
         "codec" | "ops" | "spec" | "algo" | "pop" => {
             let salt: u64 = match cmd { "codec" => 0xC0DEC, "ops" => 0x0B5, "algo" => 0xA160, "pop" => 0x909, _ => 0x59EC };
             let genf: fn(&mut Rng, bool) -> serde_json::Value = match cmd { "codec" => cvh::codec::gen_case, "ops" => cvh::ops::gen_case, "algo" => cvh::ops::gen_algo_case, "pop" => cvh::pop::gen_case, _ => cvh::specgen::gen_case };
-            std::panic::set_hook(Box::new(|_| {}));
+            cvh::ops::install_panic_hook();
             if let Some(p) = arg(&args, "--replay") {
                 // replay: lines carry their generator coordinates
                 for l in std::fs::read_to_string(p).unwrap().lines().filter(|l| !l.trim().is_empty()) {
@@ -127,6 +127,19 @@ fn main() {
                 }).collect(),
                 None => (start..cases).map(|c| (seed, c, thorough)).collect(),
             };
+            // K-run calls the library in this process: whatever the library itself prints on stdout must not mix with the
+            // trace lines, and is an observation of its own (a CLI run prints exactly one line: the library prints nothing)
+            let mut trace_out: Option<std::fs::File> = None;
+            if cmd == "run" {
+                use std::os::unix::io::FromRawFd;
+                let cap_path = cvh::proc::build_dir().join("run").join(format!("stdout_{}.cap", std::process::id()));
+                std::fs::create_dir_all(cap_path.parent().unwrap()).unwrap();
+                let real = nix::unistd::dup(1).unwrap();
+                let cap = nix::fcntl::open(&cap_path, nix::fcntl::OFlag::O_RDWR | nix::fcntl::OFlag::O_CREAT | nix::fcntl::OFlag::O_TRUNC | nix::fcntl::OFlag::O_APPEND, nix::sys::stat::Mode::from_bits_truncate(0o600)).unwrap();
+                nix::unistd::dup2(cap, 1).unwrap();
+                std::env::set_var("CVH_STDOUT_CAP", &cap_path);
+                trace_out = Some(unsafe { std::fs::File::from_raw_fd(real) });
+            }
             for (s, case, th) in list {
                 let mut line = if cmd == "run" {
                     let mut rng = Rng::new(s.wrapping_mul(1_000_003).wrapping_add(case) ^ 0x4E17);
@@ -136,8 +149,9 @@ fn main() {
                     cvh::proc::gen_case(&mut rng, th, case)
                 };
                 line["case"] = json!(case); line["gen"] = json!({"seed": s, "case": case, "thorough": th});
-                let mut o = out.lock(); writeln!(o, "{}", line).unwrap();
+                match trace_out.as_mut() { Some(f) => { writeln!(f, "{}", line).unwrap(); } None => { let mut o = out.lock(); writeln!(o, "{}", line).unwrap(); } }
             }
+            if let Ok(p) = std::env::var("CVH_STDOUT_CAP") { let _ = std::fs::remove_file(p); }
         }
         _ => { eprintln!("usage: cvh selftest|ctl ... [--seed S] [--cases K] [--start K0] [--thorough] [--replay FILE]"); std::process::exit(2); }
     }
